@@ -67,7 +67,8 @@ def strategy():
         'endpoints': st.lists(st.sampled_from(ENDPOINTS), max_size=5),
         'static': st.booleans(),
         'subapp': st.sampled_from([None, 'plain', 'with-resources']),
-        'mws': st.lists(st.sampled_from(['cookie', 'cookie-named', 'gzip', 'stats', 'getparam', 'ctx', 'custom']), max_size=3, unique=True),
+        'mws': st.lists(st.sampled_from(['cookie', 'cookie-named', 'gzip', 'stats', 'getparam', 'ctx', 'custom', 'set-provides', 'list-provides']),
+                        max_size=3, unique=True),
         'mount': st.sampled_from(['/meta', '/_meta/', '/', '/a/b/meta', '/m<zq9>']),
         'depth': st.sampled_from([0, 0, 1, 2]),
         'debug': st.booleans(),
@@ -167,12 +168,28 @@ def build(case):
 
         def request(self, next, request):
             return next(custom_val=1)
+    class SetProvides(Middleware):
+        provides = frozenset(['lang', 'region'])     # any iterable of names is legal
+
+        def request(self, next):
+            return next(lang='en', region='eu')
+
+    class ListProvides(Middleware):
+        provides = ['as_list']
+        endpoint_provides = {'ep_set'}
+
+        def request(self, next):
+            return next(as_list=1)
+
+        def endpoint(self, next):
+            return next(ep_set=2)
     mws = []
     for m in case['mws']:
         mws.append({'cookie': lambda: SignedCookieMiddleware(secret_key=KEY),
                     'cookie-named': lambda: SignedCookieMiddleware(arg_name='sess', cookie_name='sid', secret_key=KEY + '-2'),
                     'gzip': lambda: GzipMiddleware(), 'stats': lambda: StatsMiddleware(), 'getparam': lambda: GetParamMiddleware(['q']),
-                    'ctx': lambda: SimpleContextProcessor('extra'), 'custom': lambda: Custom()}[m]())
+                    'ctx': lambda: SimpleContextProcessor('extra'), 'custom': lambda: Custom(),
+                    'set-provides': lambda: SetProvides(), 'list-provides': lambda: ListProvides()}[m]())
     mount = case['mount']
     meta_entry = (mount, MetaApplication())
     depth = case['depth']
